@@ -185,6 +185,50 @@ func refUn(op string, x float64) (float64, bool) {
 	return 0, false
 }
 
+// limits of the named functions at +Inf, -Inf and NaN (the value IEEE 754 / C99 Annex F assign)
+func limitUn(op string, x float64) (float64, bool) {
+	nan, pinf, ninf := math.NaN(), math.Inf(1), math.Inf(-1)
+	if math.IsNaN(x) {
+		switch op {
+		case "Abs", "ABS":
+			return nan, true
+		case "Lgamma", "Gamma", "LogErfc":
+			return 0, false
+		}
+		return nan, true
+	}
+	pos := x > 0
+	sel := func(p, n float64) (float64, bool) {
+		if pos {
+			return p, true
+		}
+		return n, true
+	}
+	switch op {
+	case "Exp":
+		return sel(pinf, 0)
+	case "Log", "Log1p", "Sqrt", "SQRT":
+		return sel(pinf, nan)
+	case "Sin", "Cos", "Tan":
+		return nan, true
+	case "Sinh":
+		return sel(pinf, ninf)
+	case "Cosh":
+		return pinf, true
+	case "Tanh", "Erf":
+		return sel(1, -1)
+	case "Erfc":
+		return sel(0, 2)
+	case "Log1pExp":
+		return sel(pinf, 0)
+	case "Logistic", "Sigmoid":
+		return sel(1, 0)
+	case "Neg", "NEG":
+		return -x, true
+	}
+	return 0, false
+}
+
 func looseFor(op string) float64 {
 	switch op {
 	case "Sin", "Cos", "Tan", "Erf", "Erfc", "Log1p", "Sinh", "Tanh", "Logistic", "Sigmoid", "Log1pExp":
@@ -295,10 +339,19 @@ func check(c Case) *Failure {
 			}
 		case "Equals":
 			{
-				// the generated code of every type (also the integer ones) compares the float64 readings within epsilon
+				// float types: equal within epsilon (NaN = NaN, Inf = Inf of the same sign), on the float64 readings
 				v1, v2 := refF64(c.A[0]), refF64(c.A[1])
 				eps := fparse(c.P)
-				want = math.Abs(v1-v2) < eps || (math.IsNaN(v1) && math.IsNaN(v2)) || (math.IsInf(v1, 1) && math.IsInf(v2, 1)) || (math.IsInf(v1, -1) && math.IsInf(v2, -1))
+				viaF64 := math.Abs(v1-v2) < eps || (math.IsNaN(v1) && math.IsNaN(v2)) || (math.IsInf(v1, 1) && math.IsInf(v2, 1)) || (math.IsInf(v1, -1) && math.IsInf(v2, -1))
+				want = viaF64
+				if !isF(ta) {
+					// integer types: the template's own #else branch, a.GetK() == b.GetK() — exact equality of the operands as
+					// represented in the receiver's type, whatever epsilon
+					want = xz == yz
+					if res.Bool != want && res.Bool == viaF64 {
+						return fail("Equals:int-via-float64", "integer Equals compares the float64 readings within epsilon instead of the integers", fmt.Sprint(want))
+					}
+				}
 			}
 		case "Sign":
 			s := int64(0)
@@ -487,6 +540,28 @@ func check(c Case) *Failure {
 	case "Sqrt", "SQRT", "Log1pExp", "Logistic", "Sigmoid", "Lgamma", "Exp", "Log", "Log1p", "Sin", "Cos", "Tan", "Sinh", "Cosh", "Tanh", "Erf", "Erfc", "LogErfc", "Gamma":
 		x := refF64(c.A[0])
 		if math.IsNaN(x) || math.IsInf(x, 0) {
+			if !isF(c.TC) {
+				return nil // float -> int conversion of a non-finite value: implementation-defined
+			}
+			for _, t := range c.TT {
+				if !isF(t) {
+					return nil
+				}
+			}
+			want, ok := limitUn(g, x)
+			if !ok {
+				return nil
+			}
+			gf := got.fl()
+			if !(gf == want || (math.IsNaN(want) && math.IsNaN(gf))) {
+				site := g + ":special"
+				if g == "Sqrt" || (g == "SQRT" && types[c.TC].Real) {
+					if math.IsInf(x, -1) && math.IsInf(gf, 1) {
+						site = "Sqrt:neg-inf" // math.Pow(-Inf, 0.5) = +Inf
+					}
+				}
+				return fail(site, "value at an IEEE special operand differs from the limit of the named function", fstr(want))
+			}
 			return nil
 		}
 		if !isF(c.TC) && (g == "Log1pExp" || g == "Logistic" || g == "Sigmoid") {
@@ -508,6 +583,13 @@ func check(c Case) *Failure {
 		for _, t := range c.TT {
 			if types[t].Base == BF32 {
 				at = 1 // a binary32 temporary limits the precision of the result
+			}
+		}
+		if g == "Log1pExp" && isF(c.TC) && types[at].Base == BF64 && (!isF(c.A[0].T) || types[c.A[0].T].Base == BF64 || float64(float32(x)) == x) {
+			// every branch of Log1pExp is accurate to a few ulp in binary64 (branch errors e^2x/2, e^-2x/2, e^-33.3 are below
+			// half an ulp of the result); a wrong sign of the correction term on (18, 33.3] is an error of 2e^-x ~ 1e-9 relative
+			if math.Abs(got.fl()-want) > 3.6e-15*math.Abs(want) {
+				return fail("Log1pExp:value", "result differs from ln(1+e^x) by more than 16 ulp", fstr(want))
 			}
 		}
 		if !agrees(at, V{T: at, F: got.F, Z: got.Z}, want, looseFor(g)) {
@@ -532,7 +614,32 @@ func check(c Case) *Failure {
 			return nil
 		}
 		a, b := refF64(c.A[0]), refF64(c.A[1])
-		if math.IsNaN(a) || math.IsNaN(b) || math.IsInf(a, 1) || math.IsInf(b, 1) {
+		if math.IsNaN(a) || math.IsNaN(b) || math.IsInf(a, 1) || math.IsInf(b, 1) || (g == "LogSub" && (a <= b || math.IsInf(a, -1))) {
+			for _, t := range []int{c.TC, c.TT[0]} {
+				if types[t].Base == BF32 && a != b && float64(float32(a)) == float64(float32(b)) {
+					return nil // distinct operands that coincide in binary32
+				}
+			}
+			// extended table: ln(e^a +- e^b) with e^-Inf = 0, e^+Inf = +Inf, ln 0 = -Inf, ln(negative) = Inf - Inf = NaN
+			ea, eb := math.Exp(a), math.Exp(b)
+			var w float64
+			if g == "LogAdd" {
+				w = math.Log(ea + eb)
+			} else {
+				w = math.Log(ea - eb)
+				if !math.IsInf(a, 0) && !math.IsInf(b, 0) && !math.IsNaN(a) && !math.IsNaN(b) {
+					// finite a <= b: decide the sign exactly, not through the rounded exponentials
+					if a == b {
+						w = math.Inf(-1)
+					} else {
+						w = math.NaN()
+					}
+				}
+			}
+			gf := got.fl()
+			if !(gf == w || (math.IsNaN(w) && math.IsNaN(gf))) {
+				return fail(g+":special", "value at IEEE special operands differs from ln(e^a +- e^b)", fstr(w))
+			}
 			return nil
 		}
 		var want float64
@@ -662,11 +769,38 @@ func check(c Case) *Failure {
 			for _, x := range xs {
 				mx = math.Max(mx, alpha*x)
 			}
-			num, den := 0.0, 0.0
-			for _, x := range xs {
-				if g == "LogSmoothMax" && !(x > 0) {
+			if g == "SmoothMax" {
+				// the direct formula sum x e^(ax) / sum e^(ax): e^(ax) must neither overflow nor all underflow in the storage type
+				lim := 700.0
+				for _, t := range append([]int{c.TC}, c.TT...) {
+					if types[t].Base == BF32 {
+						lim = 80
+					}
+				}
+				maxabs := 1.0
+				for _, x := range xs {
+					maxabs = math.Max(maxabs, math.Abs(x))
+				}
+				// the numerator sums n terms x e^(ax): it must stay finite too
+				if mx+math.Log(maxabs*float64(len(xs)+1)) > lim || mx < -lim {
 					return nil
 				}
+			}
+			anyNeg := false
+			for _, x := range xs {
+				if x < 0 {
+					anyNeg = true
+				}
+			}
+			if g == "LogSmoothMax" && anyNeg {
+				// log of a negative element: outside the domain of the log-scale computation. The result must not be a
+				// wrong finite number: NaN, or (should the library ever handle signs) the SmoothMax value itself.
+				if math.IsNaN(got.fl()) {
+					return nil
+				}
+			}
+			num, den := 0.0, 0.0
+			for _, x := range xs {
 				w := math.Exp(alpha*x - mx)
 				num += x * w
 				den += w
